@@ -1,20 +1,19 @@
-\* quick exhaustive: area 4, K=2, 2 callers, 2 heights, raw and cascade wiring, 3 calls, 2 environment actions (cancel/flush/restart/crash)
+\* empty block and block outside the sampling window next to a normal one
 SPECIFICATION Spec
 CONSTANTS
   Coords = {c0, c1, c2, c3}
   K = 2
   Callers = {p1, p2}
-  Heights = {h1, h2}
+  Heights = {h1, h2, h3}
   NoCaller = NoCaller
   NoHeight = NoHeight
-  EmptyHeights = {}
-  OutsideHeights = {}
-  CascadeModes = {FALSE, TRUE}
+  EmptyHeights = {h2}
+  OutsideHeights = {h3}
+  CascadeModes = {FALSE}
   PersistOnEmpty = TRUE
   CrashForgiven = TRUE
   MaxCalls = 3
-  MaxEnv = 2
+  MaxEnv = 1
   RecordHist = FALSE
-SYMMETRY Sym
+SYMMETRY SymCC
 INVARIANTS TypeOK AvailableSound PendingStable SameCoords NoPartialPromotion SessionMutex
-PROPERTIES PendingStableStep
